@@ -322,47 +322,149 @@ def _is_none_test(e, name):
         e.comparators[0].value is None
 
 
+def _linear(f, e, at, rd, depth=0):
+    """integer-linear normal form {symbol: coef} of an index/length expression; None if not linear"""
+    if depth > 8:
+        return None
+    if isinstance(e, ast.Constant) and isinstance(e.value, int) and not isinstance(e.value, bool):
+        return {"1": e.value}
+    if isinstance(e, ast.Attribute) and dotted(e) == "self.nlen":
+        ds = [d for d in rd.reaching("self.nlen", at) if d.var == "self.nlen"]
+        if not ds:
+            return {"N": 1}
+        return None  # nlen already updated at this point: handled by the caller
+    if isinstance(e, ast.Name):
+        ds = [d for d in rd.reaching(e.id, at) if not d.weak]
+        if len(ds) == 1 and ds[0].kind == "param":
+            return {e.id: 1}
+        if len(ds) == 1 and ds[0].kind == "assign" and ds[0].value is not None and ds[0].index is None:
+            return _linear(f, ds[0].value, ds[0].node, rd, depth + 1)
+        return None
+    if isinstance(e, ast.Call) and dotted(e.func) == "len" and e.args:
+        return _length(f, e.args[0], at, rd, depth + 1)
+    if isinstance(e, ast.BinOp) and isinstance(e.op, (ast.Add, ast.Sub)):
+        a, b = _linear(f, e.left, at, rd, depth + 1), _linear(f, e.right, at, rd, depth + 1)
+        if a is None or b is None:
+            return None
+        sg = 1 if isinstance(e.op, ast.Add) else -1
+        out = dict(a)
+        for k, v in b.items():
+            out[k] = out.get(k, 0) + sg * v
+        return {k: v for k, v in out.items() if v}
+    return None
+
+
+def _length(f, e, at, rd, depth=0):
+    """linear form of the number of elements of a list expression"""
+    if depth > 8:
+        return None
+    if isinstance(e, ast.Attribute) and dotted(e) == "self.active":
+        return {"N": 1}  # invariant: one activity entry per allocated mode
+    if isinstance(e, (ast.List, ast.Tuple)):
+        if any(isinstance(x, ast.Starred) for x in e.elts):
+            return None
+        return {"1": len(e.elts)} if e.elts else {}
+    if isinstance(e, ast.Name):
+        ds = [d for d in rd.reaching(e.id, at) if not d.weak]
+        if any(d.kind == "param" for d in ds):
+            return {f"len({e.id})": 1}  # opaque symbol (also when a None default is replaced by a list)
+        if len(ds) == 1 and ds[0].kind == "assign" and ds[0].value is not None and ds[0].index is None:
+            return _length(f, ds[0].value, ds[0].node, rd, depth + 1)
+        return None
+    if isinstance(e, ast.Call):
+        cn = dotted(e.func) or ""
+        if cn in ("list", "tuple", "sorted") and e.args:
+            return _length(f, e.args[0], at, rd, depth + 1)
+        if cn in ("range", "np.arange") and e.args:
+            pos = [a for a in e.args]
+            if len(pos) == 1:
+                return _linear(f, pos[0], at, rd, depth + 1)
+            if len(pos) == 2:
+                a, b = _linear(f, pos[0], at, rd, depth + 1), _linear(f, pos[1], at, rd, depth + 1)
+                if a is None or b is None:
+                    return None
+                out = dict(b)
+                for k, v in a.items():
+                    out[k] = out.get(k, 0) - v
+                return {k: v for k, v in out.items() if v}
+        if cn == "len":
+            return None
+        return None
+    if isinstance(e, ast.ListComp) and len(e.generators) == 1 and not e.generators[0].ifs:
+        return _length(f, e.generators[0].iter, at, rd, depth + 1)
+    if isinstance(e, ast.BinOp) and isinstance(e.op, ast.Add):
+        a, b = _length(f, e.left, at, rd, depth + 1), _length(f, e.right, at, rd, depth + 1)
+        if a is None or b is None:
+            return None
+        out = dict(a)
+        for k, v in b.items():
+            out[k] = out.get(k, 0) + v
+        return {k: v for k, v in out.items() if v}
+    return None
+
+
 def add_mode(ctx):
     rule = "C08.add-mode"
-    ctx.explain(f"{rule}: add_mode of both phase-space circuits grows the activity list by as many entries as nlen.")
+    ctx.explain(f"{rule}: add_mode of both phase-space circuits grows the activity list by as many entries as nlen "
+                "(length algebra over list displays, range/arange, concatenation and append).")
     for rel, cn in ((G.GAUSS, "GaussianModes"), (B.BOS, "BosonicModes")):
         f = ctx.tree.func(rel, f"{cn}.add_mode")
         rd = rd_of(f.node)
-        grow = None  # expression nlen grows by
-        for n in walk_no_nested(f.node):
-            if isinstance(n, ast.AugAssign) and dotted(n.target) == "self.nlen" and isinstance(n.op, ast.Add):
-                grow = n.value
-            if isinstance(n, ast.Assign) and any(dotted(t) == "self.nlen" for t in n.targets):
-                grow = n.value
-        ctx.require(grow is not None, f"{cn}.add_mode does not update self.nlen")
-        unit = isinstance(grow, ast.Constant) and grow.value == 1
-        ok = None
+        cfg = rd.cfg
+        # growth of nlen
+        grow = None
+        for nd in cfg.nodes:
+            st = nd.ast
+            if nd.kind != "stmt":
+                continue
+            if isinstance(st, ast.AugAssign) and dotted(st.target) == "self.nlen" and isinstance(st.op, ast.Add):
+                grow = _linear(f, st.value, nd.id, rd) if not (isinstance(st.value, ast.Name) or True) else None
+                g0 = st.value
+                grow = _linear(f, g0, nd.id, rd)
+                if grow is None and isinstance(g0, ast.Name):
+                    # num_modes = len(peak_list)
+                    grow = _linear(f, g0, nd.id, rd)
+            if isinstance(st, ast.Assign) and any(dotted(t) == "self.nlen" for t in st.targets):
+                new = _linear(f, st.value, nd.id, rd)
+                if new is not None:
+                    grow = {k: v for k, v in {**new, "N": new.get("N", 0) - 1}.items() if v}
+        ctx.require(grow is not None, f"{cn}.add_mode: growth of self.nlen not understood")
+        # growth of active
+        got = None
         why = ""
-        for n in walk_no_nested(f.node):
-            if isinstance(n, ast.Assign) and any(dotted(t) == "self.active" for t in n.targets):
-                dv = derives(f.node, n.value)
-                dg = derives(f.node, grow)
-                # new activity list computed from the same new length
-                shared = (dv.params & dg.params) or (set(x.var for x in dv.defs) & set(x.var for x in dg.defs))
-                ok = bool(shared)
-                why = "" if ok else "new activity list is not computed from the new register length"
-            if isinstance(n, ast.Call) and dotted(n.func) in ("self.active.append",):
-                in_loop = False
-                p = getattr(n, "parent", None)
-                while p is not None and p is not f.node:
-                    if isinstance(p, (ast.For, ast.While, ast.ListComp)):
-                        in_loop = True
-                    p = getattr(p, "parent", None)
-                ok = unit or in_loop
-                why = "" if ok else ("`self.active.append(...)` adds one entry while nlen grows by "
-                                     f"`{ast.unparse(grow)}`: after New(n > 1) the register and the simulator disagree "
-                                     "on the number of modes")
-            if isinstance(n, ast.Call) and dotted(n.func) in ("self.active.extend",):
-                ok = True
-            if isinstance(n, ast.AugAssign) and dotted(n.target) == "self.active":
-                ok = True
-        ctx.require(ok is not None, f"{cn}.add_mode does not update self.active")
-        ctx.ob(rule, f.site, ok, why, role="active-growth", line=f.node.lineno)
+        for nd in cfg.nodes:
+            st = nd.ast
+            if nd.kind != "stmt" or st is None:
+                continue
+            if isinstance(st, ast.Assign) and any(dotted(t) == "self.active" for t in st.targets):
+                ln = _length(f, st.value, nd.id, rd)
+                if ln is None:
+                    ctx.na(rule, f.site, f"length of `{ast.unparse(st.value)[:40]}` not understood")
+                    got = "na"
+                else:
+                    got = {k: v for k, v in {**ln, "N": ln.get("N", 0) - 1}.items() if v}
+            for sub in walk_no_nested(st):
+                if isinstance(sub, ast.Call) and dotted(sub.func) == "self.active.append":
+                    in_loop = False
+                    p = getattr(sub, "parent", None)
+                    while p is not None and p is not f.node:
+                        if isinstance(p, (ast.For, ast.While, ast.ListComp)):
+                            in_loop = True
+                        p = getattr(p, "parent", None)
+                    got = "na" if in_loop else {"1": 1}
+                if isinstance(sub, ast.Call) and dotted(sub.func) == "self.active.extend" and sub.args:
+                    ln = _length(f, sub.args[0], nd.id, rd)
+                    got = ln if ln is not None else "na"
+            if isinstance(st, ast.AugAssign) and dotted(st.target) == "self.active":
+                ln = _length(f, st.value, nd.id, rd)
+                got = ln if ln is not None else "na"
+        ctx.require(got is not None, f"{cn}.add_mode does not update self.active")
+        if got == "na":
+            continue
+        ok = got == grow
+        ctx.ob(rule, f.site, ok, "" if ok else f"`active` grows by {got or 0} entries while nlen grows by {grow}: after "
+               "New(n > 1) the register and the simulator disagree on which modes exist", role="active-growth",
+               line=f.node.lineno)
     ctx.floor(rule, 2)
 
 
